@@ -43,6 +43,16 @@ func propC08(w *World, r *Report) {
 	RunStrictChoice(w, r, succ, br08)
 	r.Floor("strictchoice", 1)
 	RunControl(r, "narrowbound", "ctlWrapBound|", func(cw *World, rr *Report, fns []*ssa.Function) { RunNarrowBound(cw, rr, fns, newBoundsRun(cw)) })
+	RunBigEndian(w, r, func(p string) bool {
+		for _, suf := range []string{"/opentype/gtab", "/opentype/coverage", "/opentype/classdef", "/opentype/gdef", "/opentype/markarray", "/opentype/anchor"} {
+			if strings.HasSuffix(p, suf) {
+				return true
+			}
+		}
+		return false
+	})
+	RunFormatField(w, r)
+	RunExtType(w, r)
 	checkTagPad(w, r)
 	RunPrevSentinel(w, r, enc)
 	r.Floor("prevsentinel", 1)
@@ -64,6 +74,8 @@ func propC11(w *World, r *Report) {
 	RunReadOnly(w, r, NewEffects(w), "readonly", []string{"(*glyf.Glyph).Components", "(*glyf.Glyph).FixComponents", "(*glyf.Glyph).encodeLen", "(*glyf.Glyph).append", "(glyf.Glyphs).Encode"}, 0)
 	r.Floor("sizeagree", 1)
 	RunGlyfFlagSiblings(w, r)
+	RunXYTwins(w, r)
+	RunBigEndian(w, r, func(p string) bool { return strings.HasSuffix(p, "/glyf") })
 	RunPadStrip(w, r)
 	for _, a := range boundsAssumptions {
 		r.Assumes(a)
